@@ -253,6 +253,10 @@ var uriSeeds = []string{
 	"/a/b/", "/a//b", "a/=b", "/8=a/32=b/seg=3", "/localhost/nfd", "32=", "/32=/", "/8=/", "8=", "/1=abc", "1=abcd", "2=00", "50=7", "54=7",
 }
 
+var patSeeds = []string{"", "/", "<", ">", "<>", "<a>", "<=a>", "<a=>", "<a=b=c>", "<v=ver>", "<seg=n>", "<8=x>", "<0=x>", "<70000=x>",
+	"<18446744073709551616=x>", "/a/<b>", "/a/<v=x>/", "<a", "a>", "<<a>>", "</>", "<a/b>", "32=metadata/<v=versionNumber>/seg=0",
+	"<=>", "<==>", "< >", "<\x00>", "/<>/<>", "<params-sha256=d>", "<Seg=1>"}
+
 func genString(r *common.Rand, g *common.Gen) string {
 	switch r.Intn(4) {
 	case 0:
@@ -384,6 +388,15 @@ func gen(g *common.Gen) {
 		for k := 0; k < 6; k++ {
 			s := genString(r, g)
 			g.Op("parse %s", common.Hex([]byte(s)))
+			// the same strings, and pattern-shaped ones, through the name PATTERN parser
+			ps := s
+			if r.Chance(1, 2) {
+				ps = common.Pick(r, patSeeds)
+				if r.Chance(1, 3) {
+					ps = ps + "/" + s
+				}
+			}
+			g.Op("pparse %s", common.Hex([]byte(ps)))
 			if !strings.Contains(s, "/") {
 				g.Op("cparse %s", common.Hex([]byte(s)))
 			}
@@ -470,6 +483,14 @@ func execTabr(kind string, toks []string) string {
 		}
 	}
 	return string(out)
+}
+
+func hexNoDash(b []byte) string {
+	h := common.Hex(b)
+	if h == "-" {
+		return ""
+	}
+	return h
 }
 
 func hashList(hs []uint64) string {
@@ -615,6 +636,30 @@ func exec(op string) string {
 			return "c=" + strings.Join(cls, ",")
 		}
 		return "bad-op"
+	case "pparse":
+		pat, err := enc.NamePatternFromStr(string(common.UnHex(f[1])))
+		if err != nil {
+			return "err"
+		}
+		if len(pat) == 0 {
+			return "-"
+		}
+		parts := make([]string, len(pat))
+		for i, cp := range pat {
+			switch x := cp.(type) {
+			case enc.Component:
+				parts[i] = "c" + common.CompText(x)
+			case *enc.Component:
+				parts[i] = "c" + common.CompText(*x)
+			case enc.Pattern:
+				parts[i] = fmt.Sprintf("p%d:%s", uint64(x.Typ), hexNoDash([]byte(x.Tag)))
+			case *enc.Pattern:
+				parts[i] = fmt.Sprintf("p%d:%s", uint64(x.Typ), hexNoDash([]byte(x.Tag)))
+			default:
+				parts[i] = "?"
+			}
+		}
+		return strings.Join(parts, "/")
 	case "cln":
 		// decode in place from a buffer, clone, then reuse the buffer (as a face does with its receive
 		// buffer): the clone must still be the name
